@@ -76,7 +76,7 @@ func splitContainer(b []byte) (*indepFile, error) {
 				if err != nil {
 					return nil, err
 				}
-				if l < 0 || p+int(l) > len(b) {
+				if l < 0 || l > int64(len(b)-p) {
 					return nil, errors.New("metadata string out of range")
 				}
 				kv[i] = b[p : p+int(l)]
@@ -105,7 +105,7 @@ func splitContainer(b []byte) (*indepFile, error) {
 		if err != nil {
 			return nil, err
 		}
-		if l < 0 || p+int(l)+16 > len(b) {
+		if l < 0 || l > int64(len(b)-p-16) {
 			return nil, errors.New("block out of range")
 		}
 		blk.DataAt = p
